@@ -28,6 +28,46 @@ def write_cases(ck, cases, name):
     return p
 
 
+# ---------------------------------------------------------------------------------------------- the library in use
+def _app_stage(ck, props, exhaustive=False):
+    """HsmsApp: host and equipment exchanging SECS-II transactions over HSMS. The model is checked exhaustively (where
+    asked), then simulated behaviours are replayed with the library in the role of the application: dictionary in SML,
+    templates filled through ellipses, messages stamped, encoded, decoded, printed, replies made from what was decoded."""
+    if exhaustive:
+        ck.model("HsmsApp", "HsmsApp", "HsmsApp_%s.cfg" % ck.tier, timeout=q(ck, 600, 3000))
+        ck.model("HsmsApp/liveness", "HsmsApp", "HsmsApp_live.cfg", timeout=600)
+    r = ck.tlc("HsmsApp", "HsmsApp_sim.cfg", workers=1, simulate="num=%d" % q(ck, 300, 3000),
+               extra=["-depth", "18", "-seed", str(ck.seed)])
+    if r.error and not r.cases:
+        raise ToolError("HsmsApp simulation failed: %s" % r.error)
+    # (the history is printed for every successor generated at the last step: one behaviour per simulation run is kept)
+    seen, behaviours = set(), []
+    for b in r.cases:
+        k = json.dumps(b[:-1], sort_keys=True)
+        if k not in seen:
+            seen.add(k)
+            behaviours.append(b)
+    if len(behaviours) < 20:
+        raise ToolError("HsmsApp simulation produced too few behaviours: %d" % len(behaviours))
+    ck.states += r.distinct
+    ck.transitions += r.generated
+    n = q(ck, 300, 3000)
+    btable = write_cases(ck, behaviours[:n], "app-behaviours.ndjson")
+    ev = ck.trace("app", "app", ["-in", btable], "TraceCodec", "TraceCodec.cfg", props,
+                  nontrivial=lambda e: e.get("ev") == "rt" and e.get("msg", {}).get("item", {}).get("f") not in (None, "none"),
+                  key=lambda e: json.dumps([e.get("ev"), e.get("how"), e.get("bytes"), e.get("expect")]))
+    ck.replayed += min(len(behaviours), n)
+    names = {}
+    for e in ev:
+        if e.get("ev") == "rt":
+            names[e.get("how")] = names.get(e.get("how"), 0) + 1
+    ck.extra["app_behaviours_replayed"] = dict(behaviours=min(len(behaviours), n), data_frames=names,
+                                               control_frames=sum(1 for e in ev if e.get("ev") == "appctl"),
+                                               receptions=sum(1 for e in ev if e.get("ev") == "apprecv"))
+    if not ck.violations and (names.get("app-reply", 0) == 0 or names.get("app-send", 0) == 0):
+        raise ToolError("the replayed behaviours exchanged no data transactions: vacuous")
+
+
 # ---------------------------------------------------------------------------------------------- C03
 @check("C03", design_ref="4 C03, App. F",
        technique="TLC model checking of a TLA+ decoder machine vs a strict grammar; co-enumeration and trace validation of real hsms.Parse results against the TLA+ grammar",
@@ -120,6 +160,12 @@ def c01(ck):
     # buffer that is overwritten afterwards (run-length summaries)
     ck.trace("big", "big", [], "TraceCodec", "TraceCodec.cfg", ["InvBig", "InvSeq"],
              nontrivial=lambda e: e.get("n", 0) >= 31 or e.get("ev") == "bigseq")
+    if ck.violations:
+        return
+    # in use: messages of a dictionary written in SML, filled, stamped, sent over a modelled HSMS link and decoded there
+    ck.rule.append("in use: simulated behaviours of HsmsApp replayed; every data frame is a round-trip event, every reception "
+                   "is judged against the message the model sent")
+    _app_stage(ck, ["InvC01", "InvExpect", "InvApp"])
 
 
 @check("C02", design_ref="4 C02, App. H",
@@ -146,6 +192,10 @@ def c02(ck):
     ck.rule.append("corrupt: re-encodings of messages decoded from non-canonical spellings against EncMsg of their projection")
     ck.trace("corrupt", "corrupt", ["-n", q(ck, 30, 250)], "TraceCodec", "TraceCodec.cfg", ["InvC02"],
              nontrivial=lambda e: e.get("ok") and len(e.get("bytes", [])) > 14, key=lambda e: json.dumps(e.get("bytes")))
+    if ck.violations:
+        return
+    # in use: the frames an application produces from its SML dictionary against the bytes the protocol model computed
+    _app_stage(ck, ["InvC02", "InvExpect"])
     if ck.violations:
         return
     c02_values(ck)
@@ -253,6 +303,10 @@ def c14(ck):
                   nontrivial=lambda e: e.get("act") == "Recv")
     ck.replayed += min(len(behaviours), q(ck, 800, 8000))
     ck.extra["session_behaviours_replayed"] = min(len(behaviours), q(ck, 800, 8000))
+    if ck.violations:
+        return
+    # ... and under SECS-II transactions: HsmsApp (T3/T6/T7 time-outs, S9Fx, SxF0), model-checked incl. liveness, replayed
+    _app_stage(ck, ["InvC14"], exhaustive=True)
     ck.assumptions += ["the harness compares the two session-id bytes with its loop variable when summarising the session-id sweep"]
 
 
